@@ -1189,6 +1189,15 @@ func (tk *TKAI) deferredRestore(fn *ssa.Function) (bound ssa.Value, ok bool) {
 			}
 			mc, isMC := d.Call.Value.(*ssa.MakeClosure)
 			if !isMC {
+				// `defer p.restoreLexer(p.Lexer.Clone())`: a method that puts its argument back into Parser.Lexer; the
+				// argument is evaluated where the defer statement stands
+				if h := d.Call.StaticCallee(); h != nil && h.Blocks != nil && len(h.Blocks) == 1 && len(d.Call.Args) == 2 && len(h.Params) == 2 && len(recoverCalls(h)) == 0 {
+					for _, hin := range h.Blocks[0].Instrs {
+						if st, isSt := hin.(*ssa.Store); isSt && tk.w.parserFieldAddr(st.Addr, "Lexer") && st.Val == ssa.Value(h.Params[1]) {
+							return d.Call.Args[1], true
+						}
+					}
+				}
 				continue
 			}
 			cl := mc.Fn.(*ssa.Function)
